@@ -278,7 +278,20 @@ Json gen(uint64_t seed, const std::string &tier)
         o["op"] = "factor";
         Poly f = {1};
         bool squarefree = true;
-        if (g.chance(3, 4)) {
+        if (p == 2 && g.chance(1, 3)) {
+            // GF(2): two or three distinct irreducible factors of one degree
+            // (3 or 4) - the case in which equal-degree splitting depends on
+            // the random polynomial having more than one possible value
+            int d = g.chance(2, 3) ? 4 : 3;
+            std::vector<Poly> used;
+            for (int tries = 0; tries < 40 && (int)used.size() < 2 && deg(f) + d <= 8; tries++) {
+                Poly q = random_irreducible(g, d, p);
+                if (std::find(used.begin(), used.end(), q) != used.end())
+                    continue;
+                used.push_back(q);
+                f = mul(f, q, p);
+            }
+        } else if (g.chance(3, 4)) {
             // product of known irreducibles: equal-degree splitting has work
             int budget = 2 + (int)g.below(maxdeg - 1);
             std::vector<Poly> used;
